@@ -78,7 +78,8 @@ def explicit_values(seed):
           [['plain', 'abcd'], ['apply', R['R'], 1, 3, True]],
           [['plain', 'abcd'], ['apply', R['R'], 0, 4, True], ['apply', R['R'], 1, 2, True]],
           [['rainbow', 'a-b-c'], ['apply', R['W'], 1, 4, True]],
-          [['plain', 'abcdef'], ['apply', R['R'], 1, 5, True], ['apply', R['B'], 2, 4, True]]]
+          [['plain', 'abcdef'], ['apply', R['R'], 1, 5, True], ['apply', R['B'], 2, 4, True]],
+          [['plain', 'abc'], ['apply', R['o'], 0, 2, True], ['apply', R['q'], 1, 3, True]]]     # non-canonical / multi-group texts
     return [(h, build(h)) for h in hs]
 
 
